@@ -11,11 +11,11 @@ class C16(Prop):
     n_quick, n_thorough, shard = 300, 6000, 100
     ready = True
     level = "proof"
-    rule = 'histories = scripted witnesses (C19 finding, override, maxReaders, on-demand cycles) + random operation sequences (5-40 ops: Describe, AddPublisher, RemovePublisher, AddReader, RemoveReader, StaticReady/NotReady, TimerFire of each of the 4 timers, ReloadConf, Close, ops after Close) over random confs (publisher / runOnDemand / static / static on-demand / alwaysAvailable publisher / alwaysAvailable static (30%), overridePublisher, maxReaders -1..3, every hook on/off; publishers offer the tracks of the stream or, 1 in 3, tracks that SubStream.Initialize of an alwaysAvailable stream refuses; scripted alwaysAvailable histories: override refused, Close while online, static, maxReaders), run on a real core.path; per operation the observed events (parent callbacks, Close() calls, hook and source log lines, answers) and the identity of the current sub-stream of the stream after the step (offline / handed to publisher p / static / none, read from stream.Stream.subStream through reflect) are compared with the model inside Coq; non-trivial = at least one stream was created; distinct = distinct (conf, history, observations)'
-    trusted_base = ['Coq 8.16.1 kernel + VM (vm_compute for cases and for the _refuted witness)', 'in-package Go driver harness/inpkg/internal/core/zz_verif_pathsm_test.go (real core.path, recording parent, fake publishers/readers; timers fired through Stop()/Reset(0))', 'model Model/PathSM.v hand-written (transliteration of internal/core/path.go handlers, internal/hooks closures, staticsources.Handler start/stop protocol), tied by correspondence on every run']
-    assumptions = ['the path goroutine handles one message at a time (single select loop), so its behaviour is a step function', 'hot reload (doReloadConf) changes only fields outside the model (pathConfCanBeUpdated); redirect, fallback, recording are not modelled and not generated', 'conf.Path.validate: runOnDemand only with source: publisher; alwaysAvailable excludes sourceOnDemand, runOnDemand, runOnUnDemand (conf_ok)', 'on alwaysAvailable paths the static source always offers compatible tracks (only publishers are generated with refused tracks); Stream.Initialize / StartOfflineSubStream do not fail for the configured G711 track', 'static source instances alternate SetReady / SetNotReady while their handler runs (protocol of internal/staticsources/handler.go, played by the driver)']
+    rule = 'histories = scripted witnesses (C19 finding, override, maxReaders, on-demand cycles) + random operation sequences (5-40 ops: Describe, AddPublisher, RemovePublisher, AddReader, RemoveReader, StaticReady/NotReady, TimerFire of each of the 4 timers, ReloadConf, Close, ops after Close) over random confs (publisher / runOnDemand / static / static on-demand / alwaysAvailable publisher / alwaysAvailable static (30%), overridePublisher, maxReaders -1..3, every hook on/off; publishers offer the tracks of the stream or, 1 in 3, tracks that SubStream.Initialize of an alwaysAvailable stream refuses; scripted alwaysAvailable histories: override refused, Close while online, static, maxReaders), run on a real core.path; per operation the observed events (parent callbacks, Close() calls, hook and source log lines, answers) and the identity of the current sub-stream of the stream after the step (offline / handed to publisher p / static / none, read from stream.Stream.subStream through reflect) are compared with the model inside Coq; non-trivial = at least one stream was created; distinct = distinct (conf, history, observations). PLUS name-life scenarios (driver TestVerifC16Names, max(36, n/8) per run, class name:<family>:<conf>:<flags>) on a real pathManager with one configured name: families held-publisher / held-reader / held-static-reader (a reload that recreates or removes the name while a publisher / reader is attached whose Close() blocks until the driver releases it; while it is held: the manager is asked for pm.paths[name] with a 150 ms deadline, a new publisher or reader arrives for the name with a 150 ms deadline, a client that still holds the old instance calls it directly; then release, end of tear-down, the queued request is answered) and free (6-14 requests, RemovePublisher / RemoveReader, reloads of all five kinds: same, hot-reloadable, recreate, name removed, name added) over publisher / alwaysAvailable / static confs; observed per step: Close() returns and answers in real order (with the number of the accepting instance, by pointer identity) and pm.paths[name]; non-trivial = more than one instance of the name'
+    trusted_base = ['Coq 8.16.1 kernel + VM (vm_compute for cases and for the _refuted witness)', 'in-package Go driver harness/inpkg/internal/core/zz_verif_pathsm_test.go (real core.path, recording parent, fake publishers/readers; timers fired through Stop()/Reset(0))', 'in-package Go driver harness/inpkg/internal/core/zz_verif_c16names_test.go (real pathManager and paths, fake publishers/readers with gated Close(), deadlines of 150 ms for things that must not happen: a slow machine can only weaken, never false-alarm)', 'model Model/C16_Names.v hand-written (pathManager.createPath / doClosePath / doReloadConf / doAddPublisher / doAddReader and the tail of path.run() as single tear-down actions), tied by correspondence on every run', 'model Model/PathSM.v hand-written (transliteration of internal/core/path.go handlers, internal/hooks closures, staticsources.Handler start/stop protocol), tied by correspondence on every run']
+    assumptions = ['the path goroutine handles one message at a time (single select loop), so its behaviour is a step function', 'hot reload (doReloadConf) changes only fields outside the model (pathConfCanBeUpdated); redirect, fallback, recording are not modelled and not generated', 'conf.Path.validate: runOnDemand only with source: publisher; alwaysAvailable excludes sourceOnDemand, runOnDemand, runOnUnDemand (conf_ok)', 'on alwaysAvailable paths the static source always offers compatible tracks (only publishers are generated with refused tracks); Stream.Initialize / StartOfflineSubStream do not fail for the configured G711 track', 'name level: the name has its own non-regexp configuration entry (regexp paths, closePathIfIdle and path hand-over between configurations are not modelled); a request handled by the manager is followed at once by its instance phase, late instance phases are separate SDirect choices; a closing instance keeps publisher, stream and readers until its whole tear-down is over (coarser than the code, stronger claim)', 'static source instances alternate SetReady / SetNotReady while their handler runs (protocol of internal/staticsources/handler.go, played by the driver)']
     manifest = dict(
-        text="Coq theorems over the path event loop model (all operation histories, all confs, alwaysAvailable paths included): a single optional source, stream exists iff a publisher is attached (publisher paths; an alwaysAvailable path keeps its stream from creation to Close), after every history the stream's current sub-stream is the attached publisher's (else the ready static source's, else the offline one) - never a replaced or removed publisher's -, a second publisher is rejected unchanged when overridePublisher is off, with override the old publisher is closed and the old stream torn down before the new stream is created, and on an alwaysAvailable path an overriding publisher whose tracks are refused leaves nobody attached and the offline sub-stream current. The model is tied to internal/core/path.go by running a real path on generated histories and comparing every step's events inside Coq; the property is also re-evaluated on the observed events alone.",
+        text="Coq theorems over the path event loop model (all operation histories, all confs, alwaysAvailable paths included): a single optional source, stream exists iff a publisher is attached (publisher paths; an alwaysAvailable path keeps its stream from creation to Close), after every history the stream's current sub-stream is the attached publisher's (else the ready static source's, else the offline one) - never a replaced or removed publisher's -, a second publisher is rejected unchanged when overridePublisher is off, with override the old publisher is closed and the old stream torn down before the new stream is created, and on an alwaysAvailable path an overriding publisher whose tracks are refused leaves nobody attached and the offline sub-stream current. Manager level (the life of a path NAME across the instances that reloads create): for every schedule of manager messages (requests, reloads that keep / hot-reload / recreate / remove / add the configuration), direct calls on instances handed out earlier and single tear-down actions of a closed instance (every Close() arbitrarily slow), while an instance tears down the name has no other instance - the replacement is created only after the tear-down is over - so at every instant at most one instance is occupied, at most one publisher is attached to the name and at most one stream exists; every instance state is a reachable state of the path loop; waiting only for static-source paths is refuted by witness. The name-level model is tied to internal/core/path_manager.go by scenarios on a real pathManager in which the tear-down window is forced open on every run (Close() held by the driver) and the property is re-evaluated on the observations alone (who occupies which instance between accepting answer and Close() return; pm.paths[name]). The model is tied to internal/core/path.go by running a real path on generated histories and comparing every step's events inside Coq; the property is also re-evaluated on the observed events alone.",
         note="Assumed: single-goroutine loop semantics, hot reload touching only un-modelled fields. The stale sub-stream write guard itself (SubStream.WriteUnit: only the current sub-stream's writes reach readers) is C17's model; here the observable is WHICH sub-stream is current after every step. Static sources with refused tracks on alwaysAvailable paths are not generated.",
         technique="Coq proof: state invariant (finite part checked per operation by case enumeration, list part compositionally) lifted to all histories by induction (Lib/Trace.v); correspondence by vm_compute over driver cases")
 
